@@ -20,7 +20,7 @@ func init() {
 			"(R1) every comparison of a 16-bit code unit with a constant in types.decodeUTF16String is normalised to a half-line (v <= c, v < c → v <= c-1, v >= c, v > c → v >= c+1; negated branch edges are the same cut) and its cut must be one of the partition's cuts: upper ends D7FF, DBFF, DFFF, FFFF; lower ends 0000, D800, DC00, E000. An off-by-one constant or operator (v > 0xE000) misclassifies a valid character as a surrogate and makes a well-formed string fail to decode. " +
 			"(R2) the encoder side hands the text to the standard library: EncodeUTF16String calls unicode/utf16.Encode and writes the byte order mark FE FF; EscapedUTF16String rejects invalid UTF-8 before encoding. " +
 			"(R3) the decoder cuts the byte order mark off once, outside any loop (U+FEFF as first character is FE FF as well); (R1 also covers the encoder: a hand-written BMP test must cut between FFFF and 10000). (R4) the literal-string unescaper every stored text string passes through ends the escape state whenever an escape sequence has produced its byte (a UTF-16 code unit whose low byte is 5C is written as 5C 5C; if the flag survives, the next byte is taken as an escape letter); (R5) functions that copy a string element by element under a condition drop C0 control bytes only. (R6) in encrypted documents every text string passes decryptAESBytes: the pad-length cut is the writer's range 1..16; (R7) the low-level escaper types.Escape receives the result of EncodeUTF16String, except in listed callers that do not write text strings (content-stream text for a font's encoding, JavaScript of date fields, ciphertext) — a new caller that hands it single-byte text writes a string the reader decodes with another encoding. NOT decided: the round trip itself over all scalar values (surrogate arithmetic is the standard library's), which writer is used for which text entry, PDFDocEncoding/UTF-8 guessing for strings without a byte order mark.",
-		Rules:       []string{"C13.R1 TABLE: code-unit comparisons of the UTF-16 decoder cut exactly at the Unicode partition", "C13.R2 shape: the encoder delegates to unicode/utf16 and writes the byte order mark", "C13.R3 shape: the byte order mark is stripped exactly once", "C13.R4 MPT (go/cfg): in Unescape a byte written inside an escape sequence is followed by an assignment of the escape flag before the next byte", "C13.R5 TABLE: text filters decide per element by a comparison with a constant <= 0x20 only", "C13.R6 TABLE (the cut C22.R3 also decides): AES padding removal cuts exactly after 16", "C13.R8 cut: the surrogate-pair bounds test of the UTF-16 decoder errors exactly when the second code unit is missing", "C13.R7 WMC: types.Escape is handed the UTF-16 writer's result, or is called from a listed function that writes no text string"},
+		Rules:       []string{"C13.R1 TABLE: code-unit comparisons of the UTF-16 decoder cut exactly at the Unicode partition", "C13.R2 shape: the encoder delegates to unicode/utf16 and writes the byte order mark", "C13.R3 shape: the byte order mark is stripped exactly once", "C13.R4 MPT (go/cfg): in Unescape a byte written inside an escape sequence is followed by an assignment of the escape flag before the next byte", "C13.R5 TABLE: text filters decide per element by a comparison with a constant <= 0x20 only", "C13.R6 TABLE (the cut C22.R3 also decides): AES padding removal cuts exactly after 16", "C13.R9 like-with-like (= C35.R9): the bytes of a hex string never reach Unescape", "C13.R8 cut: the surrogate-pair bounds test of the UTF-16 decoder errors exactly when the second code unit is missing", "C13.R7 WMC: types.Escape is handed the UTF-16 writer's result, or is called from a listed function that writes no text string"},
 		Assumptions: []string{"unicode/utf16.Encode / Decode are correct"},
 		Level:       "other",
 		Technique:   "constant/operator table agreement on SSA comparisons of 16-bit values",
@@ -44,6 +44,8 @@ func runC13(c *Ctx) {
 	checkEscapeCallers(c)
 	r.MinInst["C13.R8"] = 1
 	checkSurrogateBounds(c, "C13.R8")
+	r.MinInst["C13.R9"] = 3
+	checkHexBytesNotUnescaped(c, "C13.R9")
 	fid := "pkg/pdfcpu/types.decodeUTF16String"
 	fn := p.Func(fid)
 	if fn == nil {
